@@ -47,6 +47,7 @@ var vfC01AddrRe = regexp.MustCompile(`^c(\d+)x(\d+)\.verif:`)
 
 type vfC01ConnState struct {
 	tag          string
+	saw233       bool  // some auth request on this connection was answered 233
 	everOK       bool  // client saw 233 at least once
 	okSeenAtLog  int   // log length when the client first saw 233
 	streamBytes  int64 // bytes read on proxy streams
@@ -173,6 +174,11 @@ func vfC01Run(t *testing.T, k *vfKit, c vfC01Case) {
 						raw.Do("GET", "example.com", fmt.Sprintf("/c%dx%d", cs.K, a.N), nil, nil)
 					case "auth_bad", "reauth_bad":
 						resp := raw.AuthReq(fmt.Sprintf("bad-c%d", cs.K), "0")
+						if resp.Status == 233 {
+							st.mu.Lock()
+							st.saw233 = true
+							st.mu.Unlock()
+						}
 						if a.Kind == "reauth_bad" {
 							st.mu.Lock()
 							st.reauth = append(st.reauth, resp)
@@ -215,6 +221,9 @@ func vfC01Run(t *testing.T, k *vfKit, c vfC01Case) {
 						w.Auth.Release(raw.Tag)
 						resp := <-done
 						st.mu.Lock()
+						if resp.Status == 233 {
+							st.saw233 = true
+						}
 						if resp.Status == 233 && !st.everOK {
 							st.everOK = true
 							st.okSeenAtLog = w.Log.Len()
@@ -347,7 +356,7 @@ func vfC01Judge(k *vfKit, c vfC01Case, states []*vfC01ConnState, evs []vfEvent) 
 				k.Violation("server:payload-relayed-to-unauthenticated", rep(map[string]any{"conn": cs.K}),
 					"connection c%d never authenticated but received %d stream bytes and %d datagrams", cs.K, st.streamBytes, st.dgramsRecv)
 			}
-			if st.everOK {
+			if st.everOK || st.saw233 {
 				k.Violation("server:233-without-acceptance", rep(map[string]any{"conn": cs.K}), "connection c%d got status 233 but the authenticator never accepted it", cs.K)
 			}
 			continue
